@@ -82,21 +82,21 @@ package odal
 //@     emits {C04,C03} []
 //@   behaviour no_asset_id:
 //@     assumes decode_ok(msg) && S != nil && P != nil && req.AssetId == ""
-//@     ensures {C16} result == nil && unchanged_world()
-//@     emits {C16,C04} [send(respond, hagallpb.ErrorResponse{Type: hagallpb.MsgType_MSG_TYPE_ERROR_RESPONSE, RequestId: req.RequestId, Code: hagallpb.ErrorCode_ERROR_CODE_BAD_REQUEST})]
+//@     ensures {C16,C01} result == nil && unchanged_world()
+//@     emits {C16,C04,C01} [send(respond, hagallpb.ErrorResponse{Type: hagallpb.MsgType_MSG_TYPE_ERROR_RESPONSE, RequestId: req.RequestId, Code: hagallpb.ErrorCode_ERROR_CODE_BAD_REQUEST})]
 //@   behaviour no_entity:
 //@     assumes decode_ok(msg) && S != nil && P != nil && req.AssetId != "" && !(E in S.entities)
-//@     ensures {C16} result == nil && unchanged_world()
-//@     emits {C16,C04} [send(respond, hagallpb.ErrorResponse{Type: hagallpb.MsgType_MSG_TYPE_ERROR_RESPONSE, RequestId: req.RequestId, Code: hagallpb.ErrorCode_ERROR_CODE_NOT_FOUND})]
+//@     ensures {C16,C01} result == nil && unchanged_world()
+//@     emits {C16,C04,C01} [send(respond, hagallpb.ErrorResponse{Type: hagallpb.MsgType_MSG_TYPE_ERROR_RESPONSE, RequestId: req.RequestId, Code: hagallpb.ErrorCode_ERROR_CODE_NOT_FOUND})]
 //@   behaviour foreign:
 //@     assumes decode_ok(msg) && S != nil && P != nil && req.AssetId != "" && E in S.entities && S.entities[E].ParticipantID != P.ID
-//@     ensures {C16,C05} result == nil && unchanged_world()
-//@     emits {C16,C05,C04,C02} [send(respond, hagallpb.ErrorResponse{Type: hagallpb.MsgType_MSG_TYPE_ERROR_RESPONSE, RequestId: req.RequestId, Code: hagallpb.ErrorCode_ERROR_CODE_UNAUTHORIZED})]
+//@     ensures {C16,C05,C01} result == nil && unchanged_world()
+//@     emits {C16,C05,C04,C02,C01} [send(respond, hagallpb.ErrorResponse{Type: hagallpb.MsgType_MSG_TYPE_ERROR_RESPONSE, RequestId: req.RequestId, Code: hagallpb.ErrorCode_ERROR_CODE_UNAUTHORIZED})]
 //@   behaviour added:
 //@     assumes decode_ok(msg) && S != nil && P != nil && req.AssetId != "" && E in S.entities && S.entities[E].ParticipantID == P.ID
-//@     ensures {C16,C10} result == nil && E in St.assetInstances && St.assetInstances[E].Id == nid && St.assetInstances[E].AssetId == req.AssetId && St.assetInstances[E].ParticipantId == P.ID && St.assetInstances[E].EntityId == E && fresh(St.assetInstances[E])
-//@     ensures {C16} forall e: uint32 :: e != E ==> ((e in St.assetInstances) <==> old(e in St.assetInstances)) && (e in St.assetInstances ==> St.assetInstances[e] == old(St.assetInstances[e]))
-//@     emits {C16,C04,C02} [send(respond, odalpb.AssetInstanceAddResponse{Type: odalpb.MsgType_MSG_TYPE_ODAL_ASSET_INSTANCE_ADD_RESPONSE, RequestId: req.RequestId, AssetInstanceId: nid}); Broadcast(S, P, odalpb.AssetInstanceAddBroadcast{Type: odalpb.MsgType_MSG_TYPE_ODAL_ASSET_INSTANCE_ADD_BROADCAST, OriginTimestamp: req.Timestamp, AssetInstance: odalpb.AssetInstance{Id: nid, AssetId: req.AssetId, ParticipantId: P.ID, EntityId: E}})]
+//@     ensures {C16,C10,C01} result == nil && E in St.assetInstances && St.assetInstances[E].Id == nid && St.assetInstances[E].AssetId == req.AssetId && St.assetInstances[E].ParticipantId == P.ID && St.assetInstances[E].EntityId == E && fresh(St.assetInstances[E])
+//@     ensures {C16,C01} forall e: uint32 :: e != E ==> ((e in St.assetInstances) <==> old(e in St.assetInstances)) && (e in St.assetInstances ==> St.assetInstances[e] == old(St.assetInstances[e]))
+//@     emits {C16,C04,C02,C01} [send(respond, odalpb.AssetInstanceAddResponse{Type: odalpb.MsgType_MSG_TYPE_ODAL_ASSET_INSTANCE_ADD_RESPONSE, RequestId: req.RequestId, AssetInstanceId: nid}); Broadcast(S, P, odalpb.AssetInstanceAddBroadcast{Type: odalpb.MsgType_MSG_TYPE_ODAL_ASSET_INSTANCE_ADD_BROADCAST, OriginTimestamp: req.Timestamp, AssetInstance: odalpb.AssetInstance{Id: nid, AssetId: req.AssetId, ParticipantId: P.ID, EntityId: E}})]
 //@   complete behaviours
 //@   disjoint behaviours
 
@@ -118,7 +118,7 @@ package odal
 //@     ensures result == nil && unchanged_world()
 //@   behaviour cascade:
 //@     assumes decode_ok(msg) && !(id in S.entities)
-//@     ensures {C16,C06} result == nil && forall e: uint32 :: ((e in St.assetInstances) <==> (old(e in St.assetInstances) && e != id)) && (e in St.assetInstances ==> St.assetInstances[e] == old(St.assetInstances[e]))
+//@     ensures {C16,C06,C01} result == nil && forall e: uint32 :: ((e in St.assetInstances) <==> (old(e in St.assetInstances) && e != id)) && (e in St.assetInstances ==> St.assetInstances[e] == old(St.assetInstances[e]))
 //@   complete behaviours
 //@   disjoint behaviours
 
@@ -143,7 +143,7 @@ package odal
 //@     ensures unchanged_world()
 //@   behaviour bound:
 //@     assumes P != nil
-//@     ensures {C16,C06} forall e: uint32 :: ((e in St.assetInstances) <==> (old(e in St.assetInstances) && !(e in P.entityIDs && (!(e in S.entities) || !S.entities[e].Persist)))) && (e in St.assetInstances ==> St.assetInstances[e] == old(St.assetInstances[e]))
+//@     ensures {C16,C06,C01} forall e: uint32 :: ((e in St.assetInstances) <==> (old(e in St.assetInstances) && !(e in P.entityIDs && (!(e in S.entities) || !S.entities[e].Persist)))) && (e in St.assetInstances ==> St.assetInstances[e] == old(St.assetInstances[e]))
 //@   complete behaviours
 //@   disjoint behaviours
 //@   loop 1:
